@@ -103,6 +103,12 @@ claim("C14",
  "static analysis: constant-table verification, registry/lexer-table cross-check (AST abstract evaluation), SSA error-discipline and flush pairing",
  "DESIGN.md §3 C14")
 
+claim("C11",
+ "Static census of panic-capable constructs over the whole module, each an obligation decided on every run: explicit panic statements and panicking third-party APIs (only in a reasoned table / with constant arguments); unchecked Preferences type assertions checked against every construction site of the operation type (lexer rule table resolved through its factory closures + Operation literals in code); list-element typing; handler operand dereferences vs NumArgs; Front()/Back()/Alias dereferences under a nil or length test; constant and len-k index/slice bounds proved by dominator-based interval reasoning over len() or covered by a residual table that names the invariant; guarded division / Repeat / make. The 'never hangs' half of the property, general nil dereferences, third-party parser panics and stack exhaustion are NOT decided; variable-index expressions are only counted.",
+ TB + " The residual tables in rules_c11.go (41 index sites, 2 list-end sites, 4 arithmetic sites, 1 accepted panic) were triaged by reading each site; every row carries its invariant.",
+ "static analysis: panic-site census with dominator-based interval reasoning over len(), type-assertion / construction-site agreement from the extracted operator and lexer tables, nil-guard recognition",
+ "DESIGN.md §3 C11")
+
 na = {
  "C01": "whole-property quantifies over runtime values of all programs x documents; no structural clause with detection value beyond what C09/C11 already check (DESIGN.md §3 C01)",
 }
